@@ -22,8 +22,8 @@ var StdNormal = NormalDist{0, 1}
 const invSqrt2Pi = 0.39894228040143267793994605993438186847585863116493465766592583
 
 func (n NormalDist) PDF(x float64) float64 {
-	z := x - n.Mu
-	return math.Exp(-z*z/(2*n.Sigma*n.Sigma)) * invSqrt2Pi / n.Sigma
+	z := (x - n.Mu) / n.Sigma
+	return math.Exp(-z*z/2) * invSqrt2Pi / n.Sigma
 }
 
 func (n NormalDist) pdfEach(xs []float64) []float64 {
@@ -34,11 +34,10 @@ func (n NormalDist) pdfEach(xs []float64) []float64 {
 			res[i] = math.Exp(-x*x/2) * invSqrt2Pi
 		}
 	} else {
-		a := -1 / (2 * n.Sigma * n.Sigma)
 		b := invSqrt2Pi / n.Sigma
 		for i, x := range xs {
-			z := x - n.Mu
-			res[i] = math.Exp(z*z*a) * b
+			z := (x - n.Mu) / n.Sigma
+			res[i] = math.Exp(-z*z/2) * b
 		}
 	}
 	return res
